@@ -1,1 +1,20 @@
-PROP = {'id': 'C16', 'level': 'proof', 'functions': ['JobSubmitter.submit_jobs', 'JobSubmitter._handle_completion', 'JobRunner.run_jobs_v', 'JobRunner._run_jobs', 'Cluster.mark_complete'], 'native': [], 'records': ['JobSubmitter', 'JobRunner', 'JobConfiguration', 'Cluster'], 'min_obligations': 500, 'assumptions': ['ghost event log: the boundary contracts of write_results_summary, run_command / check_run_command (with env), Cluster.mark_complete and JobRunner._run_jobs append their tag; the log is ghost state, its bookkeeping clauses are assumed by callers and defined (not checked) at the boundary functions', 'HpcSubmitter construction + run inside _submit_to_hpc, JobRunner.run_jobs in local mode, _generate_jobs, serialize_for_execution are assumed boundary contracts', 'the obsolete node_setup_script / node_shutdown_script variants are covered only in the sense that the function verifies with them set (order clauses are stated for the command variant)'], 'not_decided': ['a node setup command that itself fails (check_run_command raises: the batch does not run)', 'what the commands do', 'the content of the pipeline trigger command string'], 'explanation': 'submit_jobs runs the setup command exactly when the submission is new and configures one, once, before anything is handed over (ghost.runs unchanged at that point); _handle_completion logs summary, then teardown (iff configured, independent of results), then the completion flag; run_jobs runs node setup strictly before and node teardown strictly after the batch, with JADE_RUNTIME_OUTPUT and JADE_SUBMISSION_GROUP in the environment, and returns the batch status whatever the teardown status; attribute-safety obligations cover every attribute read (F3).'}
+PROP = {'id': 'C16',
+ 'level': 'proof',
+ 'functions': ['JobSubmitter.submit_jobs', 'JobSubmitter._handle_completion', 'JobRunner.run_jobs_v', 'JobRunner._run_jobs', 'Cluster.mark_complete'],
+ 'native': ['JobSubmitter._handle_completion'],
+ 'records': ['JobSubmitter', 'JobRunner', 'JobConfiguration', 'Cluster'],
+ 'min_obligations': 500,
+ 'assumptions': ['ghost event log: the boundary contracts of write_results_summary, run_command / check_run_command (with env), Cluster.mark_complete and '
+                 'JobRunner._run_jobs append their tag; the log is ghost state, its bookkeeping clauses are assumed by callers and defined (not checked) at '
+                 'the boundary functions',
+                 'HpcSubmitter construction + run inside _submit_to_hpc, JobRunner.run_jobs in local mode, _generate_jobs, serialize_for_execution are assumed '
+                 'boundary contracts',
+                 'the obsolete node_setup_script / node_shutdown_script variants are covered only in the sense that the function verifies with them set (order '
+                 'clauses are stated for the command variant)'],
+ 'not_decided': ['a node setup command that itself fails (check_run_command raises: the batch does not run)',
+                 'what the commands do',
+                 'the content of the pipeline trigger command string'],
+ 'explanation': 'submit_jobs runs the setup command exactly when the submission is new and configures one, once, before anything is handed over (ghost.runs '
+                'unchanged at that point); _handle_completion logs summary, then teardown (iff configured, independent of results), then the completion flag; '
+                'run_jobs runs node setup strictly before and node teardown strictly after the batch, with JADE_RUNTIME_OUTPUT and JADE_SUBMISSION_GROUP in '
+                'the environment, and returns the batch status whatever the teardown status; attribute-safety obligations cover every attribute read (F3).'}
